@@ -105,7 +105,7 @@ def _run_phot(order, grouping, maskk, k=1.0, fixed=False, driver='basic'):
     return tbl, init, mask, ph
 
 
-def _check_phot(order, grouping, maskk, fixed):
+def _check_phot(order, grouping, maskk, fixed, twin=False):
     tbl, init, mask, ph = _run_phot(order, grouping, maskk, fixed=fixed)
     n = len(order)
     if list(tbl['id']) != list(range(1, n + 1)):
@@ -154,6 +154,8 @@ def _check_phot(order, grouping, maskk, fixed):
         if not np.array_equal(gid, np.arange(1, n + 1)):
             return f'group_id {gid} without grouping'
     cnt = np.array([np.sum(gid == g) for g in gid])
+    if twin:
+        cnt = cnt[::-1]                      # perturbed oracle
     if not np.array_equal(gsz, cnt):
         return f'group_size {gsz} != number of rows sharing the group {cnt}'
     # npixfit = unmasked pixels of the fit_shape window within the image
@@ -194,7 +196,8 @@ def _run_book(case):
         ctx.stats.obligations += 1
         cnt['n'] += 1
         try:
-            msg = _check_phot(order, grouping, maskk, fixed)
+            msg = _check_phot(order, grouping, maskk, fixed,
+                              twin=bool(case.get('twin')))
         except Exception as e:  # noqa
             msg = f'raised {e!r}'
         params = dict(kind='book', order=order, grouping=grouping,
@@ -412,6 +415,8 @@ def cases(tier, seed):
             cs.append(dict(kind='book', name=f'bookkeeping-perm{lo}-{lo + 6}',
                            lo=lo, hi=lo + 6,
                            masks=['none', 'near', 'row', 'edge'], fixed=True))
+    cs.append(dict(kind='book', name='bookkeeping-twin', lo=7, hi=8,
+                   masks=['none'], twin=True))
     for w in ('order-invariance', 'scale', 'iterative', 'iterative-finder'):
         cs.append(dict(kind='misc', name=f'psf-{w}', what=w))
     cs.append(dict(kind='grouper', name='grouper-2', n=2))
